@@ -404,6 +404,42 @@ func customC03(t *testing.T, e *mc.Explorer) *mc.ShardResult {
 			res.Transitions += int64(4 * len(blk))
 		}
 	}
+	// ---- URLs in opaque form (url.URL{Scheme, Host, Opaque}: net/http sends the opaque part as request-target to Host)
+	if e.Shard == 0 {
+		type ou struct{ scheme, host, opaque string }
+		ous := []ou{{"http", "a.test", "/x"}, {"http", "b.test", "/x"}, {"https", "a.test", "/x"}, {"http", "a.test:8080", "/x"}, {"http", "a.test", "/y"}, {"http", "a.test", "//a.test/x"}, {"http", "a.test", "//b.test/x"}}
+		for i, a := range ous {
+			for j, b := range ous {
+				if i == j {
+					continue
+				}
+				synctest.Test(t, func(t *testing.T) {
+					w := world.New(world.Opt{})
+					defer w.Close()
+					answer(w, RS{Status: 200, H: H("Cache-Control", "max-age=100000")})
+					mk := func(o ou) *http.Request {
+						r := world.Req("GET", "http://placeholder.test/")
+						r.URL = &url.URL{Scheme: o.scheme, Host: o.host, Opaque: o.opaque}
+						r.Host = o.host
+						return r
+					}
+					o1 := w.Do(mk(a))
+					o2 := w.Do(mk(b))
+					res.Executions++
+					if o1.Tok != "" && o2.Err == nil && o2.Panic == nil && o2.Tok == o1.Tok && len(o2.Calls) == 0 {
+						sig := "URI collision between URLs in opaque form"
+						if v, ok := viol[sig]; ok {
+							v.Count++
+						} else {
+							viol[sig] = &mc.Violation{Property: "C03", Signature: sig, Count: 1, Shard: e.Shard, Choices: []int{},
+								Message: fmt.Sprintf("the response stored for url.URL{Scheme:%q, Host:%q, Opaque:%q} was returned for url.URL{Scheme:%q, Host:%q, Opaque:%q}", a.scheme, a.host, a.opaque, b.scheme, b.host, b.opaque),
+								Trace:   []mc.Pt{{Label: "opaque", Desc: fmt.Sprintf("%s|%s|%s|%s|%s|%s", a.scheme, a.host, a.opaque, b.scheme, b.host, b.opaque)}}}
+						}
+					}
+				})
+			}
+		}
+	}
 	sigs := make([]string, 0, len(viol))
 	for s := range viol {
 		sigs = append(sigs, s)
@@ -437,7 +473,7 @@ func customC03(t *testing.T, e *mc.Explorer) *mc.ShardResult {
 func runC03Methods(x *mc.X) {
 	method := mc.Pick(x, "method", []string{"GET", "HEAD", "POST", "OPTIONS", "get", "QUERY", "PUT", "DELETE", "TRACE", "PROPFIND", "(left empty)"})
 	// range units are case-insensitive, and a unit the cache does not know still makes it a range request
-	rng := mc.Pick(x, "range", []string{"", "bytes=0-1", "bytes=0-", "Bytes=0-1", "BYTES=2-", "items=0-9", "bytes=0-0,-1"})
+	rng := mc.Pick(x, "range", []string{"", "bytes=0-1", "bytes=0-", "Bytes=0-1", "BYTES=2-", "items=0-9", "bytes=0-0,-1", "\x00second-line"})
 	state := mc.Pick(x, "stored", []string{"fresh", "stale+etag"})
 	reqCC := mc.Pick(x, "request-cache-control", []string{"", "only-if-cached", "max-stale"})
 	w := world.New(world.Opt{})
@@ -460,7 +496,9 @@ func runC03Methods(x *mc.X) {
 	if method == "(left empty)" {
 		req.Method = "" // net/http: "For client requests, an empty string means GET"
 	}
-	if rng != "" {
+	if rng == "\x00second-line" { // an empty first field line, the range on the second
+		req.Header["Range"] = []string{"", "bytes=0-1"}
+	} else if rng != "" {
 		req.Header.Set("Range", rng)
 	}
 	if reqCC != "" {
@@ -492,6 +530,25 @@ func replayURLPair(t *testing.T, v *mc.Violation) bool {
 		}
 	}
 	for _, p := range v.Trace {
+		if p.Label == "opaque" {
+			f := strings.Split(p.Desc, "|")
+			hit := false
+			synctest.Test(t, func(t *testing.T) {
+				w := world.New(world.Opt{})
+				defer w.Close()
+				answer(w, RS{Status: 200, H: H("Cache-Control", "max-age=100000")})
+				mk := func(s, h, o string) *http.Request {
+					r := world.Req("GET", "http://placeholder.test/")
+					r.URL = &url.URL{Scheme: s, Host: h, Opaque: o}
+					r.Host = h
+					return r
+				}
+				o1, o2 := w.Do(mk(f[0], f[1], f[2])), w.Do(mk(f[3], f[4], f[5]))
+				fmt.Printf("  | GET {%s %s %s} -> %s\n  | GET {%s %s %s} -> %s\n", f[0], f[1], f[2], o1, f[3], f[4], f[5], o2)
+				hit = o1.Tok != "" && o2.Tok == o1.Tok && len(o2.Calls) == 0
+			})
+			return hit
+		}
 		if p.Label == "block" { // found with every URL of the authority stored: both orders of storing the two
 			hit := false
 			for _, first := range [][2]string{{a, b}, {b, a}} {
